@@ -165,6 +165,18 @@ func c16Case(cfg explore.Config, pre, klen, vlen int) (msg string) {
 		_ = d.db.Close()
 		return m
 	}
+	// the delete must also survive a recovery: its record has to be replayed after the (possibly over-sized, separately
+	// placed) record it cancels, whichever segments the two were written to (seed C16-s1; fixed finding a1529f0)
+	img2 := d.fs.Clone()
+	d3 := &c16DB{fs: img2, cfg: cfg, model: d.model}
+	if err := d3.open(); err != nil {
+		return "Open of the unclean image taken after the Delete (recovery) failed: " + err.Error()
+	}
+	if m := d3.verify(d3.db, "after recovery from an unclean image taken after the key was deleted again"); m != "" {
+		_ = d3.db.Close()
+		return m
+	}
+	_ = d3.db.Close()
 	if err := d.db.Close(); err != nil {
 		return "final Close: " + err.Error()
 	}
